@@ -274,7 +274,7 @@ fn bound_cost(sc: &mut HScenario) {
                     worst = worst.max(static_cost(&t, prog));
                 }
                 if let POp::Direct { item, value, .. } = op {
-                    worst = worst.max(static_cost(&t, &Prog::Set { item: *item, value: *value }));
+                    worst = worst.max(static_cost(&t, &Prog::Set { item: *item, value: *value, peek: None }));
                 }
                 if let POp::DirectDrop { item, .. } = op {
                     // At most key_pool (<= 3) removals.
